@@ -11,6 +11,8 @@ REG = {
     "C19": ("vf.checks.c19", "C19"),
     "C15": ("vf.checks.chx_props", "C15"),
     "C16": ("vf.checks.c16", "C16"),
+    "C13": ("vf.checks.c13", "C13"),
+    "C20": ("vf.checks.c20", "C20"),
     "C05": ("vf.checks.rates_props", "C05"), "C06": ("vf.checks.rates_props", "C06"),
 }
 
